@@ -250,8 +250,111 @@ Proof.
   unfold fl_seq, fl_bind, r_not, r_and, p_truth.
   cbn [p_isinstance existsb isinstance1 orb py_truthy bind negb].
   destruct (forallb (is_recordset_of t) (x :: l)) eqn:E.
-  - rewrite (flatten_recordsets t _ E). cbn [bind]. rewrite dedup_ints. reflexivity.
+  - rewrite (flatten_recordsets t _ E). unfold p_iter. cbn [bind py_iter]. rewrite dedup_ints. reflexivity.
   - apply bridge_RL_k2.
+Qed.
+
+Lemma all_pos_ints : forall l,
+  all_m (fun v_v => r_and (Ok (p_isinstance [C_int] v_v)) (p_gt v_v (PInt false 0))) l = Ok (forallb is_pos_int l).
+Proof.
+  induction l as [|x r IH]; [reflexivity|]. cbn [all_m forallb]. rewrite IH.
+  destruct x; try reflexivity; cbn.
+  - destruct b; reflexivity.
+  - destruct (0 <? z); reflexivity.
+Qed.
+
+Lemma bridge_ReferenceList_do_convert : forall t v,
+  same_res (gen_ReferenceList_do_convert orc t v) (reflist_do_convert orc t v).
+Proof.
+  intros t v. rewrite reflist_split. unfold gen_ReferenceList_do_convert.
+  destruct v; try (cbn -[gen_ReferenceList_do_convert_k1 reflist_tail]; apply bridge_RL_k1; fail).
+  (* str: the pre-processing inside try/except *)
+  unfold fl_seq, fl_try, fl_bind, p_startswith, p_json_loads, p_reclist_from_repr, p_iter, r_and.
+  cbn [p_isinstance existsb isinstance1 orb reflist_pre].
+  destruct (starts_with (Str "[") s).
+  - destruct (o_json_loads orc s) as [j|]; [|apply bridge_RL_k1].
+    destruct j; try (cbn -[gen_ReferenceList_do_convert_k1 reflist_tail]; apply bridge_RL_k1; fail).
+    cbn [p_isinstance existsb isinstance1 orb py_iter bind]. rewrite all_pos_ints. cbn [bind].
+    destruct (forallb is_pos_int l); apply bridge_RL_k1.
+  - destruct (reclist_from_repr orc s); apply bridge_RL_k1.
+Qed.
+
+(* ---- is_right_type ---- *)
+Lemma bridge_Id_is_right_type : forall v, gen_Id_is_right_type v = Ok (is_short_exact_int v).
+Proof.
+  intros v. unfold gen_Id_is_right_type. short_consts. unfold is_short_exact_int. short_consts.
+  destruct v; try reflexivity. destruct sub; [reflexivity|]. unf. cbn. destruct (_ <=? z); reflexivity.
+Qed.
+
+Lemma all_strs : forall l,
+  all_m (fun v_item => Ok (p_isinstance [C_str] v_item)) l = Ok (forallb (fun x => match x with PStr _ _ => true | _ => false end) l).
+Proof.
+  induction l as [|x r IH]; [reflexivity|]. cbn [all_m forallb]. rewrite IH. destruct x; reflexivity.
+Qed.
+
+Lemma all_short_ids : forall l, all_m (fun v_val => gen_Id_is_right_type v_val) l = Ok (forallb is_short_exact_int l).
+Proof.
+  induction l as [|x r IH]; [reflexivity|]. cbn [all_m forallb]. rewrite bridge_Id_is_right_type, IH.
+  cbn [bind]. destruct (is_short_exact_int x); reflexivity.
+Qed.
+
+Lemma bridge_is_right_type : forall T v, gen_is_right_type orc T v = Ok (is_right_type T v).
+Proof.
+  intros T v. destruct T; cbn [gen_is_right_type is_right_type]; try apply bridge_Id_is_right_type.
+  - destruct v; reflexivity.
+  - destruct v; reflexivity.
+  - reflexivity.
+  - destruct v; reflexivity.
+  - unfold gen_Int_is_right_type. destruct v; try reflexivity.
+    change (r_and (Ok (p_type_in [C_int] (PInt sub z))) (gen_is_int_short (PInt sub z))) with (gen_Id_is_right_type (PInt sub z)).
+    rewrite bridge_Id_is_right_type. reflexivity.
+  - destruct v; try reflexivity; destruct sub; reflexivity.
+  - destruct v; reflexivity.
+  - destruct v; reflexivity.
+  - destruct v; reflexivity.
+  - unfold gen_ChoiceList_is_right_type, p_iter. destruct v; try reflexivity; cbn [p_is_none p_isinstance existsb isinstance1 orb r_or r_and bind py_iter];
+      rewrite all_strs; reflexivity.
+  - destruct v; try reflexivity; destruct sub; reflexivity.
+  - destruct v; try reflexivity; destruct sub; reflexivity.
+  - unfold gen_ReferenceList_is_right_type, p_iter. destruct v; try reflexivity. destruct k;
+      cbn [p_is_none p_isinstance existsb isinstance1 orb r_or r_and bind py_iter]; rewrite ?all_short_ids; reflexivity.
+  - unfold gen_ReferenceList_is_right_type, p_iter. destruct v; try reflexivity. destruct k;
+      cbn [p_is_none p_isinstance existsb isinstance1 orb r_or r_and bind py_iter]; rewrite ?all_short_ids; reflexivity.
+Qed.
+
+(* ---- the dispatch over type objects, and BaseColumnType.convert ---- *)
+Lemma bridge_do_convert : forall T v, same_res (gen_do_convert orc T v) (do_convert orc T v).
+Proof.
+  intros T v. destruct T; cbn [gen_do_convert do_convert].
+  - apply bridge_Text_do_convert.
+  - apply bridge_Blob_do_convert.
+  - apply bridge_Any_do_convert.
+  - apply bridge_Bool_do_convert.
+  - apply bridge_Int_do_convert.
+  - apply bridge_Numeric_do_convert.
+  - apply bridge_Date_do_convert.
+  - apply bridge_DateTime_do_convert.
+  - apply bridge_Text_do_convert.
+  - apply bridge_ChoiceList_do_convert.
+  - apply bridge_PositionNumber_do_convert.
+  - apply bridge_PositionNumber_do_convert.
+  - apply bridge_Id_do_convert.
+  - apply bridge_Id_do_convert.
+  - apply bridge_ReferenceList_do_convert.
+  - apply bridge_ReferenceList_do_convert.
+Qed.
+
+Lemma bridge_convert : forall T v, gen_convert_T orc T v = Ok (convert orc T v).
+Proof.
+  intros T v. unfold gen_convert_T, gen_convert, convert. pose proof (bridge_do_convert T v) as H.
+  destruct (is_error v) eqn:Herr.
+  { destruct v; try discriminate. reflexivity. }
+  assert (Hi : p_isinstance [C_RaisedException] v = false) by (destruct v; try discriminate; reflexivity).
+  rewrite Hi. cbn [fl_seq]. unfold fl_try, fl_bind.
+  destruct (gen_do_convert orc T v) as [w|e], (do_convert orc T v) as [w'|e']; cbn in H; try contradiction.
+  - subst; reflexivity.
+  - unfold alt_text, p_safe_repr, p_str. destruct v; cbn [p_isinstance existsb isinstance1 orb fl_seq run_flow]; try reflexivity;
+      destruct (py_str orc _); reflexivity.
 Qed.
 
 End Bridge.
